@@ -127,6 +127,8 @@ LIT_FORMS = {
     "(do (import lambda.x) 1)": 0, "(do (import os.def [sep]) 1)": 0, "(do (import os.def :as q) 1)": 0, "(do (import .def [sep]) 1)": 0,
     "(do (defclass K [] (setv def %s)) (. (K) def))": 1, "(do (defclass K [] (setv for %s)) (.__class__ (. (K) for)))": 1,
     "(do (defclass K [] (setv None %s)) (. (K) None))": 1, "(do (defclass K [] (setv True %s)) (. (K) True))": 1,
+    "(do (setv o (type \"T\" #() {\"None\" %s \"True\" 2})) [(. o None) o.True (.__class__ (. o None))])": 1,
+    "((fn [#** kw] (sorted (.items kw))) :None %s :True 1 :False 2)": 1,
     "(do (setv if %s) (del if) 1)": 1, "(do (defn f [] (global while) (setv while %s)) (f) while)": 1,
     "(do (defn f [#* in] in) (f %s))": 1, "(do (for [not [%s]] (setv q not)) q)": 1, "(lfor is [%s] is)": 1, "(do (with [as (open \"/dev/null\")] as.closed))": 0,
     "(try (raise (ValueError %s)) (except [try ValueError] (str try)))": 1,
